@@ -26,6 +26,7 @@ from vgi_rpc.metadata import (
     PROTOCOL_VERSION_KEY,
     REQUEST_VERSION,
     REQUEST_VERSION_KEY,
+    RPC_METHOD_KEY,
     SERVER_ID_KEY,
     SHM_OFFSET_KEY,
     SHM_SEGMENT_NAME_KEY,
@@ -886,6 +887,16 @@ class RpcServer:
             except (VersionError, RpcError) as exc:
                 with contextlib.suppress(BrokenPipeError, OSError):
                     _write_error_stream(transport.writer, _EMPTY_SCHEMA, exc, server_id=self._server_id)
+                # The request was refused while it was being read (request version, row
+                # count), before the method was resolved.  If it names a header-less
+                # stream method its client still sends the phase-2 input stream.
+                rejected_md = _current_request_metadata.get()
+                rejected_name = rejected_md.get(RPC_METHOD_KEY) if rejected_md is not None else None
+                rejected_info = (
+                    self._methods.get(rejected_name.decode("utf-8", "replace")) if rejected_name is not None else None
+                )
+                if rejected_info is not None:
+                    self._discard_rejected_stream_input(transport, rejected_info)
                 return
 
             # __transport_options__ — framework transport-capability handshake,
